@@ -419,6 +419,8 @@ def run(prog, ctx):
             res.discharged += 1
         else:
             res.undecided += 1
+    # ---------------- C08.K a decision taken after a call that changes a counter looks at the counter after it (common.stale_count_decisions)
+    C.stale_count_rule(res, prog, "C08.K", "countmin::", "Count-Min sketch")
     res.explanation = ("structural and formula rules over the %d functions reachable from the Count-Min update/estimate/merge/halve/decay entry points: "
                        "index formula and sibling agreement between update and estimate, all-rows loops, element-wise merge, totals" % len(reach))
     res.not_decided = "confidence statistics; merge loops that do not index both tables with one expression are undecided"
